@@ -213,6 +213,27 @@ def strip_blank_sparse(elem, s):
     return elem
 
 
+def _extra_members(w, wo, s, sep, path):
+    """Flattened names of the sparse-dict members present in state `w` and absent from `wo`."""
+    t = s["t"]
+    here = path + ([s["name"]] if s.get("name") is not None and not path[-1:] == ["#idx"] else [])
+    if path[-1:] == ["#idx"]:
+        here = path[:-1]
+    out = []
+    if t in ("dict", "compound") and "dict" in w and "dict" in wo:
+        fields = {f["name"]: f for f in s["fields"]}
+        other = dict((k, v) for k, v in wo["dict"])
+        for k, v in w["dict"]:
+            if k not in other:
+                out.append(sep.join(here + [k]))
+            else:
+                out += _extra_members(v, other[k], fields[k], sep, here)
+    elif t == "list" and "list" in w and "list" in wo:
+        for i, (a, b) in enumerate(zip(w["list"], wo["list"])):
+            out += _extra_members(a, b, s["member"], sep, here + [str(i), "#idx"])
+    return out
+
+
 def _is_blank(elem):
     if "leaf" in elem:
         return elem["leaf"] == ""
@@ -410,7 +431,12 @@ class C02(Property):
             w, wo = failure.get("with"), failure.get("without")
             if isinstance(w, dict) and isinstance(wo, dict) and "raise" not in w and "raise" not in wo:
                 if strip_blank_sparse(w, schema) == strip_blank_sparse(wo, schema):
-                    return "KF-C02-b"
+                    # … and the mechanism is the recorded one: every member the stray key materialised has a
+                    # flattened name that is a string prefix of the key (the prefix test of
+                    # SparseDict's pair filter), so an unrelated key creating members is still reported
+                    extra = _extra_members(w, wo, schema, sep, [])
+                    if extra and isinstance(k, str) and all(k.startswith(n) for n in extra):
+                        return "KF-C02-b"
         return None
 
     def nontrivial(self, case, obs):
